@@ -84,7 +84,7 @@ func EscapeName(s string) string {
 	raw := []byte(s)
 	escaped := make([]byte, 0, len(s))
 	for _, c := range raw {
-		if c <= 32 {
+		if c <= 32 || c == '\\' {
 			oct := fmt.Sprintf("\\%03o", c)
 			escaped = append(escaped, []byte(oct)...)
 		} else {
